@@ -223,6 +223,7 @@ fn main() {
     let mut san_cases: Option<u64> = None;
     let mut max_schedules: Option<usize> = None;
     let mut replay_dir = "/verif/replays".to_string();
+    let mut lite = false;
     let mut i = 2;
     while i < args.len() {
         let a = args[i].as_str();
@@ -240,6 +241,11 @@ fn main() {
             "--max-schedules" => max_schedules = v.parse().ok(),
             "--t-block-ms" => eyeball_verif::engine_thr::T_BLOCK_MS.store(v.parse().unwrap_or(12), std::sync::atomic::Ordering::SeqCst),
             "--replay-dir" => replay_dir = v,
+            "--lite" => {
+                lite = true;
+                i += 1;
+                continue;
+            }
             _ => {
                 eprintln!("unknown argument {a}");
                 std::process::exit(2);
@@ -265,6 +271,7 @@ fn main() {
         part,
         san_cases,
         max_schedules,
+        lite,
     };
     if san_cases.is_some() {
         eyeball_verif::engine_thr::SMALL.store(true, std::sync::atomic::Ordering::SeqCst);
